@@ -118,11 +118,19 @@ def pick_inputs(g, tb, rnd, n):
     neg = [d for d in datas if not model.expect(g, tb, d).ok]
     rnd.shuffle(pos); rnd.shuffle(neg)
     out = pos[: n // 2] + neg[: n // 3]
+    # a NUL byte inside a lexeme (terms like [^"]* accept it): the text after it must count for every buffer kind
+    nul = []
+    if any(t.kind == 'r' and ('[^' in t.text or '.' in t.text) for t in g.terms):
+        for base in pos[:12]:
+            for i in range(1, len(base)):
+                d = base[:i] + b'\x00' + base[i:]
+                if len(nul) < 3 and d not in nul and model.expect(g, tb, d).ok: nul.append(d); break
+    out += nul
     alph = ''.join(t.text for t in g.terms if t.kind != 'r') or 'a'
-    for _ in range(n - len(out)):
+    for _ in range(max(2, n - len(out))):
         base = rnd.choice(pos) if pos else b''
         i = rnd.randrange(len(base) + 1)
-        out.append(base[:i] + bytes([rnd.choice(b'?#\x01\x7f\xff' + alph.encode('latin-1'))]) + base[i:])      # lexically wrong or mutated
+        out.append(base[:i] + bytes([rnd.choice(b'?#\x00\x00\x01\x7f\xff' + alph.encode('latin-1'))]) + base[i:])      # lexically wrong or mutated
     uniq = list(dict.fromkeys(out))
     return [(d, rnd.choice([0, 0, 0, 1, 2, 3])) for d in uniq]
 
